@@ -35,3 +35,26 @@ claim("C19",
       "real clock, value round trip of forced timestamps beyond format agreement.",
       "path-sensitive interprocedural abstract interpretation over the AST (must-follow / guarded-by on all paths), "
       "resolved call graph prefilter", "DESIGN.md#c19")
+
+claim("C07",
+      "Static decision of the position->index logic: the complete decision tables of the three index_of methods are "
+      "extracted from the source (every abstract path, guards as symbolic atoms) and compared with the table written "
+      "from the statement over a region abstraction (before/at first/on/between(low,mid,high)/after last sample x 3 modes x "
+      "offsets incl. negative and none x intervals x tick vectors incl. repeated/single ticks x label counts incl. none; "
+      "567 cells); SliceMode->IndexMode map; the three range_indices return None exactly on a failed lookup or "
+      "start>end and otherwise (start, end) obtained with GreaterOrEqual / Less|LessOrEqual; every result-relevant "
+      "guard of the sampled dimension depends on position, offset and interval. Guards are evaluated on one "
+      "representative per region (the extracted guards, never repository code). NOT decided: behaviour for reals "
+      "outside the region representatives beyond what the guards' structure implies, np.isclose tolerance effects, "
+      "position_at/axis inverse pair.",
+      "decision-table extraction by path-sensitive abstract interpretation; region-exhaustive comparison with a spec "
+      "table; dependency slice of guards", "DESIGN.md#c07")
+claim("C09",
+      "Static decision: scaling's decision table (all abstract paths) compared with the SI oracle for all 21x21 prefix "
+      "pairs x 4 powers (1764 cells); PREFIXES/PREFIX_FACTORS/SI table agreement; regex grammar analysis of every "
+      "compiled unit pattern whose match groups are consumed (alternative shadowing under nullable un-anchored "
+      "tails), anchoring of is_atomic; refusal iff not scalable; idempotence of the sanitizer's rewrite system "
+      "(extracted from the AST) exhaustively over its alphabet up to length 5. NOT decided: floating-point exactness "
+      "of factor ratios, recognition of arbitrary compound strings.",
+      "decision-table extraction; regex AST (re._parser) analysis; rewrite-system extraction + bounded exhaustive check",
+      "DESIGN.md#c09")
